@@ -139,14 +139,14 @@ PROPS = {
     ),
     "C10": dict(
         prefixes=["c10_"],
-        level_text="Bounded model checking of the real dispatch code: for every compile-time constant 0..=50 (ConstCode<ID>: inherent methods, Static* trait impls, CodeLen), every enumeration variant with parameters 0..=11 plus symbolic parameters 11..=63 (Codes: write/read/len, Static* impls) and the function-pointer dispatchers (FuncCodeWriter/Reader/Len::new), the dispatcher and the code's own method named by the identifier run on two copies of a model stream with the same symbolic value: same bits, same lengths, same values, same positions, and the dispatcher reads back what it wrote; unsupported parameters are rejected.",
+        level_text="Bounded model checking of the real dispatch code: for every compile-time constant 0..=50 (ConstCode<ID>: inherent methods, Static* trait impls, CodeLen), every enumeration variant with parameters 0..=11 plus symbolic parameters 11..=63 (Codes: write/read/len, Static* impls) and the function-pointer dispatchers (FuncCodeWriter/Reader/Len::new) and the reader-factory dispatcher (FactoryFuncCodeReader::new, through get() and inner(), over a harness-side reader factory), the dispatcher and the code's own method named by the identifier run on two copies of a model stream with the same symbolic value: same bits, same lengths, same values, same positions, and the dispatcher reads back what it wrote; unsupported parameters are rejected.",
         assumptions=[
             "oracle: (family, parameter) derived from the identifier's NAME, restated once in the harness (direct_write!/direct_read!/direct_len)",
             "value domain per code as in C03; unary-prefixed codes bounded so that the codeword fits the 256-bit model stream",
             "streams: model stream MS<E,true> (parameterless traits use the table variants, like the real readers/writers)",
             "anyhow error values are forgotten, message formatting stubbed",
         ],
-        outside=COMMON_OUTSIDE + ["FactoryFuncCodeReader and the statistics wrapper pass-through are covered in C15 (wrapper) / not yet for the factory"],
+        outside=COMMON_OUTSIDE + ["the statistics-gathering wrapper's pass-through is checked in C15 (c15_wrapper_*)"],
     ),
     "C15": dict(
         prefixes=["c15_"],
